@@ -29,7 +29,7 @@ namespace Acn.Analysis
 open Acn
 
 /-- the exceptions the code can raise on these paths -/
-inductive Err | indexError | keyError | valueError | zeroDivision
+inductive Err | indexError | keyError | valueError | zeroDivision | typeError
   deriving DecidableEq, Repr
 
 def Err.name : Err → String
@@ -37,6 +37,7 @@ def Err.name : Err → String
   | .keyError => "KeyError"
   | .valueError => "ValueError"
   | .zeroDivision => "ZeroDivision"
+  | .typeError => "TypeError"
 
 abbrev Matrix (K : Type) := List (List K)
 
@@ -217,7 +218,28 @@ def nemaUnbalance (sqrt : K → K) (names : List String) (M : Matrix K) (c s : L
         let mean := (colSums T rows).map (· / ((rows.length : Nat) : K))
         .ok (List.zipWith unbalance (colMax rows) mean)
 
+/-- `current_unbalance` (analysis/__init__.py:137-146): the deprecated keyword `type=` (when not
+    `None`) REPLACES `unbalance_type`; the only accepted value is the string "NEMA" (case-sensitive),
+    anything else is a ValueError. -/
+def currentUnbalance (sqrt : K → K) (names : List String) (M : Matrix K) (c s : List K) (R : Matrix K)
+    (T : Nat) (phaseIds : List String) (unbalanceType : String) (typ : Option String) :
+    Except Err (List (Option K)) :=
+  if typ.getD unbalanceType == "NEMA" then nemaUnbalance sqrt names M c s R T phaseIds
+  else .error .valueError
+
 /-! ## costs  (analysis/__init__.py:186-188, 210-212) -/
+
+/-- lines 180-185 / 204-209: the tariff the cost functions use.  `arg` is the `tariff=` argument;
+    `signals` is `sim.signals` — `none` when the Simulator was built without `signals=` (the attribute is
+    `None` then and `"tariff" in None` is a TypeError), `some d` for a dict, `d` its `"tariff"` entry. -/
+def pickTariff {α : Type} (arg : Option α) (signals : Option (Option α)) : Except Err α :=
+  match arg with
+  | some t => .ok t
+  | none =>
+    match signals with
+    | none => .error .typeError
+    | some (some t) => .ok t
+    | some none => .error .valueError
 
 /-- line 188: `np.array(energy_costs).dot(agg) * (sim.period / 60)`; `prices` is the vector
     `tariff.get_tariffs(sim.start, len(agg), sim.period)` (an input: C17 owns the tariff). -/
